@@ -1,4 +1,5 @@
 ---------------------------- MODULE PipeConnsMC ----------------------------
 EXTENDS PipeConns
-MCSizes == @@MCSIZES@@
+MCWSizes == @@MCWSIZES@@
+MCRSizes == @@MCRSIZES@@
 =============================================================================
